@@ -190,7 +190,11 @@ class SvsInst:
                             necessary = True
                             break
                 if necessary:
-                    self.express_sync_interest()
+                    try:
+                        self.express_sync_interest()
+                    except Exception as e:
+                        # A transport that fails now (or is down) must not end the timer loop: later announcements still go out
+                        self.logger.error('Unable to send Sync Interest: %s', e)
                 self.timer_rst_event.clear()
                 self.next_sync_timing = time.time() + self.sample_sync_timer()
 
